@@ -814,6 +814,8 @@ def run_case(case):
         if any(not d["kind"].startswith(("getter-raises", "register-raises")) for d in out.disc):
             break
 
+    if not out.disc and variant in ("tally", "eb", "eb_sub", "eb_sub1"):
+        _second_use(out, stat, type(stat), case)
     for lb in lab:
         out.label(lb)
     if init_between:
@@ -825,6 +827,44 @@ def run_case(case):
                                            (300, "51-300"), (10 ** 9, ">300")) if nmax <= b))
     out.info = {"final_n": orc.n, "compared_states": compared}
     return out
+
+
+def _second_use(out, stat, cls, case):
+    """The tally of this case is used for two more observation periods of equal length (initialize() in between) and
+    after each period ONE query is made - one result per replication.  The answer is the one a fresh tally gives for
+    the same observations (same arithmetic, so identical)."""
+    from vlib.runner import digest
+    h = digest(case)
+    queries = list(GETTERS) + [("confidence_interval", "confidence_interval", (0.05,))]
+    name, meth, args = queries[h[2] % len(queries)]
+    k = 2 + h[3] % 6
+    seed = int.from_bytes(h[4:8], "big")
+    for period in (0, 1):
+        fresh = cls("fresh")
+        try:
+            stat.initialize()
+            for i in range(k):
+                z = (seed + (2 * i + period + 1) * 0x9E3779B97F4A7C15) & 0xFFFFFFFFFFFFFFFF
+                x = float((z >> 20) % 1000) / 8.0 - 50.0
+                stat.register(x)
+                fresh.register(x)
+            got, want = getattr(stat, meth)(*args), getattr(fresh, meth)(*args)
+        except Exception as e:                                    # noqa: BLE001
+            out.fail("second-use-raises:" + type(e).__name__, {"period": period, "getter": name, "error": repr(e)})
+            return
+        if _enc_any(got) != _enc_any(want):
+            out.fail("second-use-differs:" + name, {"period": period, "observations": k, "got": _enc_any(got),
+                                                    "fresh_statistic": _enc_any(want)})
+            return
+    out.label("second-use-single-query:" + name)
+
+
+def _enc_any(v):
+    if isinstance(v, (tuple, list)):
+        return [_enc_any(x) for x in v]
+    if isinstance(v, float):
+        return "nan" if v != v else v.hex()
+    return repr(v)
 
 
 def _plain(c):
